@@ -57,6 +57,16 @@ CHECKS['C15'] = dict(
          'P-layer on the logged outputs.',
     design_ref='4 (C15)', technique='TLA+/TLC model checking + exhaustive spec-to-code replay + trace validation',
     note=_NOTE + ' Sample rates are powers of two so that time*rate is exact.')
+CHECKS['C07'] = dict(
+    text='Clusters.tla: TLC proves that the transcriptions of _spikes_per_cluster (stable argsort, '
+         'modular first differences, boundaries, slices), _unique, _index_of (lookup table with the -1 '
+         'slot), _spikes_in_clusters, _flatten_per_cluster and grouped_mean satisfy their set-theoretic '
+         'definitions (partition, sorted union of groups) for every vector up to the length bound over '
+         'a gapped id alphabet; every case is replayed on the real functions for int32/int64/uint16/'
+         'uint32 with all requested-cluster lists and lookup orders; random vectors up to length 1000 '
+         'are judged by the declarative P-layer in the trace specification.',
+    design_ref='4 (C07)', technique='TLA+/TLC model checking + exhaustive spec-to-code replay + trace validation',
+    note=_NOTE)
 
 NOT_APPLICABLE = {}
 for e in ENGINES:
